@@ -133,6 +133,22 @@ func main() {
 			continue
 		}
 		results = append(results, r)
+		if ct := e.DB.Contracts[key]; ct != nil && ct.Implements != "" {
+			rr, err := e.VerifyRefinement(key)
+			if err != nil {
+				addViolation("binding."+short(key)+"~refines", "role contract not found", err.Error(), nil)
+			} else {
+				results = append(results, rr)
+				for _, se := range rr.SpecErrors {
+					addViolation("spec."+short(key)+"~refines", "contract does not bind to the code", se, nil)
+				}
+				for _, o := range rr.Obls {
+					if tagMatch(o.Tags, *prop) {
+						jobs = append(jobs, job{rr, o})
+					}
+				}
+			}
+		}
 		for _, se := range r.SpecErrors {
 			addViolation("spec."+short(key), "contract does not bind to the code", se, nil)
 		}
